@@ -123,3 +123,46 @@ example :
     = ([.error 7, .result 102, .result 204, .ack] : List (Reply Nat Nat)) := by decide
 
 end ExecModel.C17
+
+namespace ExecModel.C17
+open ExecModel ExecModel.Wire
+
+/-! ### defect D33: the worker loop as found does not answer a call that raises outside `Exception` -/
+
+section Old
+variable {Mem Call V E : Type}
+
+/-- With nothing fatal (the repaired loop catches every exception) the as-found loop is `wstep`. -/
+theorem wstepOld_eq_wstep (run : Run Mem Call V E) (s : WState Mem) (r : Req Mem Call) :
+    wstepOld (fun _ => false) run s r = wstep run s r := by
+  cases r with
+  | call c =>
+    simp only [wstepOld, wstep]
+    cases s.alive with
+    | false => rfl
+    | true =>
+      cases h : run 0 s.ncalls s.mem c <;> simp [replyOf]
+  | init m => rfl
+  | shutdown => rfl
+  | other => rfl
+
+theorem serveOld_eq_serve (run : Run Mem Call V E) (s : WState Mem) (rs : List (Req Mem Call)) :
+    serveOld (fun _ => false) run s rs = serve run s rs := by
+  induction rs generalizing s with
+  | nil => rfl
+  | cons r rs ih => simp only [serveOld, serve, wstepOld_eq_wstep]; split <;> simp [ih]
+
+end Old
+
+/-- **Counterexample for the code as found** (`except Exception`): a call whose function raises an
+    exception outside the `Exception` branch — `sys.exit()` inside the function — gets no reply,
+    and neither does any later request, the shutdown included: three reply-bearing requests, an
+    empty transcript (`one_reply_each` gives three replies for the repaired loop). -/
+theorem C17_fails_without_catching_base_exceptions :
+    let run : Run Unit Nat Nat String := fun _ _ _ c => if c = 0 then .error "SystemExit" else .ok c
+    let reqs : List (Req Unit Nat) := [.call 0, .call 7, .shutdown]
+    serveOld (fun e => e == "SystemExit") run {} reqs = [] ∧
+    serve run {} reqs = [.error "SystemExit", .result 7, .ack] := by
+  decide
+
+end ExecModel.C17
